@@ -1,8 +1,8 @@
 package rules
 
 import (
-	"go/token"
 	"fmt"
+	"go/token"
 	"go/types"
 	"sort"
 	"strings"
@@ -181,12 +181,26 @@ func runC09(c *Ctx) {
 		}
 	}
 	r.Check("C09.2", "reader", decoder != "" && single, c.U.Pos(ps.Pos()), "every Spec file, whatever its extension, is decoded by "+decoder)
+	// the decoder sees the bytes of the file, all of them and nothing else (trimming, BOM stripping
+	// or any other preprocessing changes what a block scalar at the end of a YAML file means)
+	for _, call := range ir.Calls(ps) {
+		if f := call.Common().StaticCallee(); f != nil && f == decoderFn {
+			d := normExpr(ps, []string{c.exprDesc(call.Common().Args[0])})[0]
+			r.Check("C09.2", "reader-input:ParseSpec", d == "$0", c.pos(call), "the decoder is given ParseSpec's input bytes unchanged (found "+d+")")
+		}
+	}
+	if readSpec != nil {
+		for _, call := range c.callsTo(readSpec, false, "cdi", "ParseSpec") {
+			d := normExpr(readSpec, []string{c.exprDesc(call.Common().Args[0])})[0]
+			r.Check("C09.2", "reader-input:ReadSpec", d == "os.ReadFile($0)#0", c.pos(call), "ReadSpec hands the file's bytes to ParseSpec unchanged (found "+d+")")
+		}
+	}
 
 	// symmetry table
 	compatible := map[string]string{
 		"gopkg.in/yaml.v3.Marshal->sigs.k8s.io/yaml.UnmarshalStrict": "both YAML; sigs.k8s.io/yaml parses with go-yaml and converts to JSON (trusted for the leaf kinds of C09.1)",
-		"encoding/json.Marshal->encoding/json.Unmarshal":              "same codec",
-		"gopkg.in/yaml.v3.Marshal->gopkg.in/yaml.v3.Unmarshal":        "same codec",
+		"encoding/json.Marshal->encoding/json.Unmarshal":             "same codec",
+		"gopkg.in/yaml.v3.Marshal->gopkg.in/yaml.v3.Unmarshal":       "same codec",
 	}
 	incompatible := map[string]string{
 		"encoding/json.Marshal->sigs.k8s.io/yaml.UnmarshalStrict": "encoding/json writes U+007F-U+009F unescaped inside strings; the YAML parser behind sigs.k8s.io/yaml refuses control characters (\"control characters are not allowed\") or reads U+0085 as a line break: a valid Spec with such a character in an env value, path or annotation cannot be read back from its .json file",
